@@ -2,6 +2,8 @@ package c04
 
 import (
 	"context"
+	"encoding/binary"
+	"encoding/json"
 	"crypto/md5"
 	"fmt"
 	"net/http"
@@ -13,6 +15,7 @@ import (
 	gproto "google.golang.org/protobuf/proto"
 	protocol "reduction.dev/reduction-protocol/kinesispb"
 	"reduction.dev/reduction/connectors"
+	"reduction.dev/reduction/connectors/embedded"
 	"reduction.dev/reduction/connectors/kinesis"
 	"reduction.dev/reduction/connectors/kinesis/kinesisfake"
 	"reduction.dev/reduction/connectors/kinesis/kinesispb"
@@ -152,4 +155,101 @@ func kinesisReaderBody(c *mc.Ctx) {
 	if restores > 0 && afterRestoreReads > 0 {
 		c.Nontrivial(strings.Join(c.Ops(), " "))
 	}
+}
+
+// Embedded reader part: the real embedded.SourceReader with S splits dealt out by the real
+// embedded splitter to R runners: runner r's reader, read k times with batch size b, must emit
+// for each of its splits j exactly j, j+S, j+2S, ... in order (the union over runners covers
+// every number once), and its checkpoint must name exactly its splits with the number of
+// values emitted so far times S as cursor.
+func embeddedReaderBody(c *mc.Ctx) {
+	splits := 1 + c.Choose(4)
+	runners := 1 + c.Choose(3)
+	batch := 1 + c.Choose(3)
+	reads := 1 + c.Choose(3)
+	c.Op("[splits=%d runners=%d batch=%d reads=%d]", splits, runners, batch, reads)
+	ids := make([]string, runners)
+	for i := range ids {
+		ids[i] = fmt.Sprintf("sr%d", i)
+	}
+	var assigned map[string][]*workerpb.SourceSplit
+	sp := embedded.NewSourceSplitter(embedded.SourceConfig{SplitCount: splits, BatchSize: batch}, ids, connectors.SourceSplitterHooks{AssignSplits: func(a map[string][]*workerpb.SourceSplit) { assigned = a }})
+	if err := sp.Start(nil); err != nil {
+		c.Failf("embedded splitter: %v", err)
+	}
+	seen := map[int]int{}
+	for _, id := range ids {
+		r := embedded.NewSourceReader(embedded.SourceConfig{SplitCount: splits, BatchSize: batch})
+		if err := r.AssignSplits(assigned[id]); err != nil {
+			c.Failf("AssignSplits: %v", err)
+		}
+		next := map[int]int{} // split index -> next expected number
+		for _, s := range assigned[id] {
+			var j int
+			fmt.Sscan(s.SplitId, &j)
+			next[j] = j
+		}
+		for k := 0; k < reads; k++ {
+			evs, err := r.ReadEvents()
+			if err != nil {
+				c.Failf("ReadEvents: %v", err)
+			}
+			if len(evs) != batch*len(assigned[id]) {
+				c.FailSig("embedded-reader-count", "runner %s with %d splits and batch size %d emits %d values in one read", id, len(assigned[id]), batch, len(evs))
+			}
+			for _, b := range evs {
+				var n int
+				fmt.Sscan(string(b), &n)
+				j := n % splits
+				if want, ok := next[j]; !ok || want != n {
+					c.FailSig("embedded-reader-sequence", "runner %s emits %d; split %d of its splits %v is at %d", id, n, j, next, want)
+				}
+				next[j] = n + splits
+				seen[n]++
+			}
+		}
+		var resumed []*workerpb.SourceSplit
+		for _, b := range r.Checkpoint() {
+			var st struct {
+				Cursor  int
+				SplitID string
+			}
+			if err := json.Unmarshal(b, &st); err != nil {
+				c.Failf("decode embedded reader checkpoint: %v", err)
+			}
+			var j int
+			fmt.Sscan(st.SplitID, &j)
+			if want, ok := next[j]; !ok || j+st.Cursor != want {
+				c.FailSig("embedded-reader-cursor", "runner %s checkpoints split %s at cursor %d, its next value is %d", id, st.SplitID, st.Cursor, want)
+			}
+			cur := make([]byte, 8)
+			binary.BigEndian.PutUint64(cur, uint64(st.Cursor))
+			resumed = append(resumed, &workerpb.SourceSplit{SplitId: st.SplitID, Cursor: cur})
+		}
+		// a new reader that is assigned the splits with the checkpointed cursors goes on where the
+		// checkpoint was taken
+		r2 := embedded.NewSourceReader(embedded.SourceConfig{SplitCount: splits, BatchSize: batch})
+		if err := r2.AssignSplits(resumed); err != nil {
+			c.Failf("AssignSplits with cursors: %v", err)
+		}
+		evs, err := r2.ReadEvents()
+		if err != nil {
+			c.Failf("ReadEvents after restore: %v", err)
+		}
+		for _, b := range evs {
+			var n int
+			fmt.Sscan(string(b), &n)
+			j := n % splits
+			if want, ok := next[j]; !ok || want != n {
+				c.FailSig("embedded-reader-resume", "runner %s, restored from its checkpoint, emits %d; split %d was at %d when the checkpoint was taken", id, n, j, want)
+			}
+			next[j] = n + splits
+		}
+	}
+	for n := 0; n < splits*batch*reads; n++ {
+		if seen[n] != 1 {
+			c.FailSig("embedded-reader-coverage", "value %d was emitted %d times by the %d runners", n, seen[n], runners)
+		}
+	}
+	c.Nontrivial(fmt.Sprint(splits, runners, batch, reads))
 }
